@@ -1,6 +1,6 @@
 (* Property C08 -- malformed peer input fails cleanly, promptly and within bounded memory.
-   Statements only; proofs live in Proofs/ (hand models) and Gen/ChChecksProof.v (generated
-   proof script for the regenerated crash model). *)
+   Statements only; proofs live in Proofs/ (hand models) and Gen/*Proof.v (generated proof
+   scripts for the regenerated crash models).  Synced to /repo 0a4bdcb. *)
 From Coq Require Import ZArith List Bool.
 From TV Require Import Base.Prelude Base.C08_Lib Model.C08_Known Gen.ShChecks Proofs.C08_HelloSh
                        Gen.ChChecks Proofs.C08_Hello
@@ -9,56 +9,64 @@ Import ListNotations.
 Open Scope Z_scope.
 
 (* ---------------------------------------------------------------------------------------
-   1. Crash analysis of the ClientHello well-formedness checks (_serverGetClientHello).
-   FULL statement (false of the faithful model, see the refutation below):
-       forall ch st ivh, ncrash (ChChecks ch st ivh)
-   PROVED PART: for EVERY abstract parsed ClientHello (every extension absent / present with
-   any fields, every None-able attribute None or not, lists of any length), every settings
-   value and every hostname-validity oracle, the translated checks end in OK, a fatal alert or
-   TLSInternalError, or crash at one of the four program points listed in ch_known_sites.
-   MISSING for the full statement: the four sites are genuine defects of tlslite-ng. *)
-Theorem hello_checks_crash_free_partial :
+   1. Crash analysis of the ClientHello well-formedness checks (_serverGetClientHello, from the
+   first `ext = clientHello.getExtension(ExtensionType.supported_versions)` up to `high_ver =
+   None`).  FULL statement: for EVERY abstract parsed ClientHello (every extension absent /
+   present with any fields, every None-able attribute None or not, lists of any length), every
+   settings value and every hostname-validity oracle, the translated checks end in OK, a fatal
+   alert or TLSInternalError -- never in a Crash.
+   History: before /repo commits b10bb95 and 5fb1773 this statement was FALSE of the faithful
+   model; the check then carried hello_checks_crash_free_partial (crashes only at four listed
+   sites), hello_checks_crash_free_refuted and hello_checks_known_sites_reachable, with witnesses
+   replayed on the live server (AlertDescription.decoder_error x2; empty supported_versions x2).
+   The later statements of the region rely on the fact established by its first check (an empty
+   supported_versions extension is answered with decode_error): that fact (ch_pre) is PROVED at
+   the first statement boundary and only then used -- see Gen/ChChecksProof.v. *)
+Theorem hello_checks_crash_free :
   forall (ch : ChChecks.ClientHello_r) (st : ChChecks.Settings_r) (ivh : list Z -> bool),
-    C08_Lib.crash_in ch_known_sites (ChChecks ch st ivh).
-Proof. exact ch_crash_sites_l. Qed.
+    C08_Lib.ncrash (ChChecks.ChChecks ch st ivh).
+Proof. exact ch_crash_free_l. Qed.
 
-Theorem hello_checks_crash_free_refuted :
-  exists ch st ivh, C08_Lib.is_crash (ChChecks ch st ivh) = true.
-Proof. exact ch_crash_free_refuted_l. Qed.
-
-(* the list of exceptions is tight: every listed site is reachable *)
-Theorem hello_checks_known_sites_reachable :
-  forall s, In s ch_known_sites -> exists ch st ivh k, ChChecks ch st ivh = C08_Lib.Crash k s.
-Proof. exact ch_known_sites_all_reachable. Qed.
-
-Example hello_checks_pass_example : ChChecks w_good st0 ivh0 = C08_Lib.OK tt.
+(* a well-formed hello passes; the four former refutation witnesses now end in decode_error *)
+Example hello_checks_pass_example : ChChecks.ChChecks w_good st0 ivh0 = C08_Lib.OK tt.
 Proof. exact ch_good_ok. Qed.
+Example hello_checks_former_witnesses :
+  ChChecks.ChChecks w_empty_identity st0 ivh0 = C08_Lib.Alert 50 /\
+  ChChecks.ChChecks w_empty_binder st0 ivh0 = C08_Lib.Alert 50 /\
+  ChChecks.ChChecks w_empty_versions_12 st0 ivh0 = C08_Lib.Alert 50 /\
+  ChChecks.ChChecks w_empty_versions_10 st0 ivh0 = C08_Lib.Alert 50.
+Proof. exact (conj ch_former_witness_1 (conj ch_former_witness_2 (conj ch_former_witness_3 ch_former_witness_4))). Qed.
 
 (* 1b. Crash analysis of the client's ServerHello checks (_clientGetServerHello after the
    HelloRetryRequest handling): FULL crash-freedom, for every abstract ServerHello (peer input),
-   every own ClientHello, settings, optional earlier HelloRetryRequest and every result of the
-   external CipherSuite.filterForVersion. *)
+   every own ClientHello, settings, optional earlier HelloRetryRequest, every value of the endpoint's
+   own `self._defragmenter.is_empty()` and every result of the external CipherSuite.filterForVersion. *)
 Theorem server_hello_checks_crash_free :
   forall (sh : ShChecks.ServerHello_r) (ch : ShChecks.ClientHello_r) (st : ShChecks.Settings_r)
-         (hrr : option ShChecks.ServerHello_r) (filterForVersion : list Z -> C08_Lib.ver -> C08_Lib.ver -> list Z),
-    C08_Lib.ncrash (ShChecks.ShChecks sh ch st hrr filterForVersion).
+         (hrr : option ShChecks.ServerHello_r) (defrag_is_empty : bool)
+         (filterForVersion : list Z -> C08_Lib.ver -> C08_Lib.ver -> list Z),
+    C08_Lib.ncrash (ShChecks.ShChecks sh ch st hrr defrag_is_empty filterForVersion).
 Proof. exact sh_crash_free_l. Qed.
 
 Example server_hello_checks_examples :
-  ShChecks.ShChecks (sh_mk None) sh_ch0 sh_st0 None keep = C08_Lib.OK tt /\
+  ShChecks.ShChecks (sh_mk None) sh_ch0 sh_st0 None true keep = C08_Lib.OK tt /\
   ShChecks.ShChecks (sh_mk (Some [ShChecks.X_RecordSizeLimitExtension
                                     {| ShChecks.RecordSizeLimitExtension_record_size_limit := None |}]))
-                    sh_ch0 sh_st0 None keep = C08_Lib.Alert 50.
+                    sh_ch0 sh_st0 None true keep = C08_Lib.Alert 50.
 Proof. exact (conj sh_example_ok sh_example_alert). Qed.
 
 (* ---------------------------------------------------------------------------------------
    2. The error funnel (hand model of _getMsg / _getNextRecordFromSocket / _sendError /
-   _shutdown / readAsync / writeAsync / closeAsync / _handshakeWrapperAsync). *)
+   _shutdown / readAsync / writeAsync / closeAsync / _handshakeWrapperAsync at /repo 0a4bdcb,
+   i.e. with the wrapper clauses of 6da5459 that turn TLSIllegalParameterException /
+   TLSDecodeError / TLSDecryptionFailed into alerts). *)
 (* C08 funnel: every handshake/read/write/close call that ends by raising leaves the
-   connection closed, the socket closed (if closeSocket) and the session not resumable *)
+   connection closed, the socket closed (if closeSocket) and the session not resumable.
+   wf_event / unsendable_wrapper_alert exclude exactly the holes proved as hole_* below. *)
 Theorem funnel_postcondition :
   forall ly dp a sf st r st',
     wf_event ly dp a = true ->
+    unsendable_wrapper_alert ly dp a sf = false ->
     funnel ly dp a sf st = (Raised r, st') ->
     closed st' = true
     /\ (close_socket st = true -> sock_closed st' = true)
@@ -88,9 +96,46 @@ Theorem funnel_alert_unsendable :
     /\ closed st' = true.
 Proof. exact funnel_alert_send_failure. Qed.
 
+(* since 6da5459: the three protocol-error classes reaching the handshake wrapper unconverted
+   (raised directly in the handshake body, in the Checker, in the record read of
+   _sendMsgThroughSocket, or TLSDecodeError / TLSDecryptionFailed in a parser) end in a fatal
+   alert on the wire before closure and TLSLocalAlert (documented) for the caller *)
+Theorem handshake_direct_protocol_error_alerts :
+  forall dp e d0 st o st' d,
+    is_pretry dp = false -> mapped_alert dp e = None -> wrapper_alert e = Some d ->
+    funnel LHandshake dp (ARaise e d0) false st = (o, st') ->
+    o = Raised (mkr E_TLSLocalAlert (Some d))
+    /\ st' = shutdown false (emit (WAlert level_fatal d) st)
+    /\ wire st' = wire st ++ [WAlert level_fatal d; WShutdown false]
+    /\ closed st' = true
+    /\ (close_socket st = true -> sock_closed st' = true)
+    /\ (has_session st = true -> resumable st' = false)
+    /\ documented E_TLSLocalAlert = true.
+Proof. exact Proofs.C08_Funnel.handshake_direct_protocol_error_alerts. Qed.
+
+(* ... and these are exactly three classes (none of them has a subclass) *)
+Theorem wrapper_converts_exactly :
+  forall e, wrapper_alert e = match e with
+                              | E_TLSIllegalParameterException => Some illegal_parameter
+                              | E_TLSDecodeError => Some decode_error
+                              | E_TLSDecryptionFailed => Some decrypt_error
+                              | _ => None
+                              end.
+Proof. exact wrapper_alert_exact. Qed.
+
+Theorem direct_illegal_parameter_alert :
+  forall st,
+    funnel LHandshake DDirect (ARaise E_TLSIllegalParameterException None) false st
+      = (Raised (mkr E_TLSLocalAlert (Some illegal_parameter)),
+         shutdown false (emit (WAlert level_fatal illegal_parameter) st))
+    /\ protocol_violation E_TLSIllegalParameterException = true
+    /\ documented E_TLSIllegalParameterException = false
+    /\ documented E_TLSLocalAlert = true.
+Proof. exact direct_illegal_parameter_now_alert. Qed.
+
 Theorem documented_exceptions_only :
   forall ly dp e d0 sf st r st',
-    specified dp e = true -> fault st = None ->
+    specified_ly ly dp e = true -> fault st = None ->
     funnel ly dp (ARaise e d0) sf st = (Raised r, st') ->
     documented (rclass r) = true.
 Proof. exact documented_exceptions_only_all. Qed.
@@ -107,25 +152,57 @@ Theorem funnel_does_not_launder_crashes :
         else shutdown (layer_eqb ly LWrite && ignore_abrupt st) st1).
 Proof. exact funnel_passes_undocumented. Qed.
 
-Theorem direct_raise_reaches_caller_without_alert :
+(* the residue after 6da5459: any other non-TLSAlert class raised directly in a handshake
+   body still reaches the caller unchanged, socket closed, NO alert *)
+Theorem direct_raise_still_without_alert :
   forall e d sf st,
     subclass e E_TLSAlert = false ->
     subclass e E_GeneratorExit = false ->
     subclass e E_StopIteration = false ->
+    wrapper_alert e = None ->
     funnel LHandshake DDirect (ARaise e d) sf st = (Raised (mkr e d), shutdown false st).
-Proof. exact wrapper_no_alert_for_direct_raise. Qed.
+Proof. exact Proofs.C08_Funnel.direct_raise_still_without_alert. Qed.
 
-Theorem direct_illegal_parameter_undocumented_no_alert :
-  forall sf st,
-    funnel LHandshake DDirect (ARaise E_TLSIllegalParameterException None) sf st
-      = (Raised (mkr E_TLSIllegalParameterException None), shutdown false st)
-    /\ protocol_violation E_TLSIllegalParameterException = true
-    /\ documented E_TLSIllegalParameterException = false.
-Proof. exact direct_illegal_parameter_no_alert. Qed.
+(* in the TLSProtocolException family the residue is exactly: TLSProtocolException itself,
+   TLSUnexpectedMessage, TLSRecordOverflow, TLSBadRecordMAC, TLSInsufficientSecurity,
+   TLSUnknownPSKIdentity, TLSHandshakeFailure -- all undocumented *)
+Theorem residue_protocol_classes_exact :
+  forall e, subclass e E_TLSProtocolException = true ->
+    existsb (exc_eqb e) residue_protocol_classes
+    = match wrapper_alert e with None => true | Some _ => false end.
+Proof. exact residue_protocol_exceptions. Qed.
+
+Theorem residue_protocol_classes_no_alert :
+  forall e d sf st,
+    existsb (exc_eqb e) residue_protocol_classes = true ->
+    funnel LHandshake DDirect (ARaise e d) sf st = (Raised (mkr e d), shutdown false st)
+    /\ subclass e E_TLSProtocolException = true
+    /\ documented e = false.
+Proof. exact residue_direct_no_alert. Qed.
+
+(* readAsync / writeAsync / closeAsync have no such conversion *)
+Theorem other_layers_direct_protocol_error_no_alert :
+  forall ly e d0 sf st d,
+    layer_eqb ly LHandshake = false ->
+    layer_eqb ly LClose && closed st = false ->
+    wrapper_alert e = Some d ->
+    funnel ly DDirect (ARaise e d0) sf st
+    = (Raised (mkr e d0), shutdown (layer_eqb ly LWrite && ignore_abrupt st) st)
+    /\ documented e = false.
+Proof. exact Proofs.C08_Funnel.other_layers_direct_protocol_error_no_alert. Qed.
 
 Theorem tls_protocol_exceptions_are_undocumented :
   forall e, subclass e E_TLSProtocolException = true -> documented e = false.
 Proof. exact protocol_exceptions_undocumented. Qed.
+
+(* new hole of 6da5459: the wrapper's own alert cannot be sent -> socket.error leaves the
+   wrapper from inside an except clause, state unchanged (nothing shut down) *)
+Theorem hole_wrapper_alert_unsendable :
+  forall dp e d0 st d,
+    is_pretry dp = false -> mapped_alert dp e = None -> wrapper_alert e = Some d ->
+    unsendable_wrapper_alert LHandshake dp (ARaise e d0) true = true
+    /\ funnel LHandshake dp (ARaise e d0) true st = (Raised (mkr E_SockError None), st).
+Proof. exact wrapper_alert_send_failure_leaves_open. Qed.
 
 Theorem hole_generator_exit :
   forall ly dp sf st,
@@ -154,11 +231,20 @@ Theorem hole_write_ignore_abrupt :
     resumable st' = resumable st.
 Proof. exact write_ignore_abrupt_keeps_resumable. Qed.
 
+(* readAsync before its try; since 8b57b65 also writeAsync's "closed" test (by design: a
+   write on a closed connection no longer touches the session) *)
 Theorem hole_read_pretry :
   forall e d sf st,
     subclass e E_StopIteration = false ->
     funnel LRead DPreTry (ARaise e d) sf st = (Raised (mkr e d), st).
 Proof. exact read_pretry_no_shutdown. Qed.
+
+Theorem write_on_closed_leaves_session_alone :
+  forall sf st,
+    funnel LWrite DPreTry (ARaise E_TLSClosedConnectionError None) sf st
+    = (Raised (mkr E_TLSClosedConnectionError None), st)
+    /\ documented E_TLSClosedConnectionError = true.
+Proof. exact write_closed_pretry. Qed.
 
 Theorem hole_close_notify_keeps_resumable :
   forall l sf st,
@@ -167,6 +253,14 @@ Theorem hole_close_notify_keeps_resumable :
                 = (Raised (mkr E_TLSRemoteAlert (Some close_notify)), st')
                 /\ closed st' = true /\ resumable st' = resumable st.
 Proof. exact close_notify_keeps_resumable. Qed.
+
+(* since 0ab9df1: a handshake record cannot be sent and the pending record is not an alert:
+   _shutdown(False), then the socket error (no longer swallowed) *)
+Theorem failed_handshake_send_reports_socket_error :
+  forall sf st,
+    funnel LHandshake DRecOnly AShutRaiseSock sf st
+    = (Raised (mkr E_SockError None), shutdown false (shutdown false st)).
+Proof. exact failed_handshake_send_no_alert_pending. Qed.
 
 Example ex_funnel_read_bad_mac :
   wf_event LRead DRecord (ARaise E_TLSBadRecordMAC None) = true
@@ -184,6 +278,15 @@ Example ex_funnel_handshake_decode_error :
         mkcst true true false false [WAlert 2 50; WShutdown false] true false None).
 Proof. exact ex_handshake_decode_error. Qed.
 
+Example ex_funnel_handshake_direct_decryption_failed :
+  specified_ly LHandshake DDirect E_TLSDecryptionFailed = true
+  /\ is_pretry DDirect = false /\ mapped_alert DDirect E_TLSDecryptionFailed = None
+  /\ wrapper_alert E_TLSDecryptionFailed = Some decrypt_error
+  /\ funnel LHandshake DDirect (ARaise E_TLSDecryptionFailed None) false (init_state LHandshake)
+     = (Raised (mkr E_TLSLocalAlert (Some 51)),
+        mkcst true true false false [WAlert 2 51; WShutdown false] true false None).
+Proof. exact ex_handshake_direct_decryption_failed. Qed.
+
 Example ex_funnel_crash_attribute_error :
   is_crash E_AttributeError = true
   /\ funnel LHandshake DParser (ARaise E_AttributeError None) false (init_state LHandshake)
@@ -191,17 +294,21 @@ Example ex_funnel_crash_attribute_error :
         mkcst true true false false [WShutdown false] true false None).
 Proof. exact ex_crash_attribute_error. Qed.
 
+
 (* ---------------------------------------------------------------------------------------
    3. Bounded work and memory of the parsers (hand model Model/C08_Work.v: cost-instrumented
    Parser primitives and every list-parsing loop built on them, explicit fuel = |input|+1;
-   the decompressor is an oracle with the ASSUMED contract "output never exceeds the limit"). *)
+   the decompressor is an oracle with the ASSUMED contract "output never exceeds the limit";
+   synced to /repo 0a4bdcb: ClientHello.parse rejects duplicate extension types after the loop
+   (6da5459), the zlib path calls decompressobj(15).decompress(data, expected_length+1) and rejects
+   any leftover (e070e0f) -- the real zlib call now satisfies the contract). *)
 (* Every parsing loop, run on ANY byte string bs with fuel |bs|+1, never returns Err OutOfFuel
    (each iteration strictly consumes input) and takes <= c*|bs|+c0 model steps.
    linear_work f c c0 := forall bs, bytes_ok bs ->
                            m_out (f bs) <> Err OutOfFuel /\ 0 <= m_steps (f bs) <= c * zlen bs + c0 *)
 Theorem parser_work_linear :
   linear_work parse_ext_list 1 4 /\
-  linear_work parse_client_hello_exts 7 13 /\
+  linear_work parse_client_hello_exts 8 13 /\
   linear_work parse_sni 2 5 /\
   linear_work parse_alpn 3 4 /\
   linear_work parse_npn 3 3 /\
@@ -236,10 +343,11 @@ Theorem loop_bodies_strictly_consume :
 Proof. exact loop_bodies_strictly_consume_all. Qed.
 
 (* allocation (bytes + list cells) <= c*|bs|+c0, on the failing paths too;
-   CompressedCertificate: UNDER THE ASSUMED CONTRACT of the decompressor (first premise) *)
+   CompressedCertificate: UNDER THE ASSUMED CONTRACT of the decompressor (first premise); the
+   decompressor is called with limit expected_length+1 and returns (output, stopped cleanly) *)
 Theorem alloc_bounded :
   linear_alloc parse_ext_list 2 1 /\
-  linear_alloc parse_client_hello_exts 4 3 /\
+  linear_alloc parse_client_hello_exts 5 3 /\
   linear_alloc parse_sni 2 1 /\
   linear_alloc parse_alpn 2 1 /\
   linear_alloc parse_npn 2 1 /\
@@ -253,10 +361,10 @@ Theorem alloc_bounded :
      linear_alloc (parse_cert_list chk) 4 2 /\ linear_alloc (parse_cert_list12 chk) 2 1) /\
   linear_alloc parse_ca_list 2 1 /\
   (forall tls12, linear_alloc (parse_cert_request12 tls12) 4 259) /\
-  (forall (dec : list Z -> Z -> res (list Z)) (algo_ok : Z -> bool),
-     (forall d lim out, 0 <= lim -> dec d lim = Ok out -> zlen out <= lim) ->
+  (forall (dec : list Z -> Z -> res (list Z * bool)) (algo_ok : Z -> bool),
+     (forall d lim out clean, 0 <= lim -> dec d lim = Ok (out, clean) -> zlen out <= lim) ->
      (forall data expected, 0 <= expected ->
-        0 <= m_alloc (decompress_cert dec data expected) <= expected /\
+        0 <= m_alloc (decompress_cert dec data expected) <= expected + 1 /\
         match m_out (decompress_cert dec data expected) with
         | Ok out => zlen out = expected
         | Err e => e = BadCertificateErr
@@ -264,7 +372,7 @@ Theorem alloc_bounded :
      (forall bs, bytes_ok bs ->
         m_out (parse_compressed_cert dec algo_ok bs) <> Err OutOfFuel /\
         0 <= m_steps (parse_compressed_cert dec algo_ok bs) <= 6 /\
-        0 <= m_alloc (parse_compressed_cert dec algo_ok bs) <= zlen bs + 16777215 /\
+        0 <= m_alloc (parse_compressed_cert dec algo_ok bs) <= zlen bs + 16777216 /\
         (forall algo expected out,
            m_out (parse_compressed_cert dec algo_ok bs) = Ok (algo, expected, out) ->
            zlen out = expected /\ 0 <= expected <= 16777215))).
@@ -301,13 +409,17 @@ Proof. exact asn1_all_children_quadratic. Qed.
 
 (* hypotheses are satisfiable, statements are not vacuous, the contract is load-bearing *)
 Example decompressor_contract_satisfiable :
-  forall d lim out, 0 <= lim -> rle_dec_limited d lim = Ok out -> zlen out <= lim.
+  forall d lim out clean, 0 <= lim -> rle_dec_limited d lim = Ok (out, clean) -> zlen out <= lim.
 Proof. exact rle_dec_limited_bounded. Qed.
 Example decompressor_contract_needed :
   m_out (decompress_cert rle_dec_unlimited [200; 0] 10) = Err BadCertificateErr /\
   m_alloc (decompress_cert rle_dec_unlimited [200; 0] 10) = 200 /\
-  ~ (forall d lim out, 0 <= lim -> rle_dec_unlimited d lim = Ok out -> zlen out <= lim).
+  ~ (forall d lim out clean, 0 <= lim -> rle_dec_unlimited d lim = Ok (out, clean) -> zlen out <= lim).
 Proof. exact unlimited_decompressor_breaks_bound. Qed.
+Example decompressor_limited_example :
+  decompress_cert rle_dec_limited [200; 0] 10 = (Err BadCertificateErr, 1, 11) /\
+  decompress_cert rle_dec_limited [3; 7; 2; 9] 5 = (Ok [7; 7; 7; 9; 9], 1, 5).
+Proof. exact limited_decompressor_example. Qed.
 Example cert_oracle_hyp_satisfiable : forall c : list Z, (fun _ : list Z => @None exn) c <> Some OutOfFuel.
 Proof. exact cert_oracle_example. Qed.
 Example ext_handler_hyp_satisfiable : forall t, top 3 9 2 2 (h_client_hello t).
@@ -316,8 +428,11 @@ Example work_bytes_example : bytes_ok [0;0;0;5;0;3;0;0;0; 0;16;0;5;0;3;2;104;50;
 Proof. exact bytes_ok_example. Qed.
 Example work_client_hello_exts_example :
   parse_client_hello_exts [0;0;0;5;0;3;0;0;0; 0;16;0;5;0;3;2;104;50; 171;171;0;2;7;7]
-  = (Ok [(0, [(0, [])]); (16, [(0, [104; 50])]); (43947, [(-3, [7; 7])])], 24, 39).
+  = (Ok [(0, [(0, [])]); (16, [(0, [104; 50])]); (43947, [(-3, [7; 7])])], 27, 42).
 Proof. exact client_hello_exts_example. Qed.
+Example work_client_hello_duplicate_example :
+  parse_client_hello_exts [0;0;0;0; 171;171;0;0; 0;0;0;0] = (Err DecodeError, 16, 18).
+Proof. exact client_hello_duplicate_example. Qed.
 Example work_sni_zero_length_example :
   parse_sni [0;6;0;0;0;0;0;0] = (Ok (Some [(0, []); (0, [])]), 10, 10) /\
   parse_sni [0;6;0;0;0;0;0] = (Err DecodeError, 8, 8).
